@@ -222,9 +222,13 @@ fn variant_out(v: &Variant) -> (String, String) {
 fn to3(fr: &Frame, p: &[P2]) -> Vec<Point3D> { p.iter().map(|q| fr.at(q.0, q.1)).collect() }
 
 /// one family: a base outline and its cyclic shifts, reversal, collinear enrichments and rigidly moved copies
-fn c10_family(r: &mut Rng, nmax: usize) -> Option<(Vec<Variant>, String)> {
+fn c10_family(r: &mut Rng, nmax: usize, scale: f64) -> Option<(Vec<Variant>, String)> {
     let fr = Frame::random(r, 1000.0);
     let (poly, fam) = simple_polygon(r, nmax);
+    // `scale` > 1: outlines hundreds to thousands of units across (cross products of 1e5..1e7: absolute tolerances of the
+    // vector predicates are below the rounding noise there; seeded change C10-m4)
+    let poly: Vec<P2> = if scale != 1.0 { poly.iter().map(|p| (p.0 * scale, p.1 * scale)).collect() } else { poly };
+    let fam = if scale != 1.0 { format!("huge-{}", fam) } else { fam.to_string() };
     if !corners_ok(&poly, 1e-4) { return None; }
     let poly = if r.chance(0.5) { reversed(&poly) } else { poly };
     let n = poly.len();
@@ -269,9 +273,14 @@ fn c10_family(r: &mut Rng, nmax: usize) -> Option<(Vec<Variant>, String)> {
 pub fn run_c10(seed: u64, n: usize, out: &str) {
     let mut r = Rng::new(seed ^ 0xC10);
     let mut sink = Sink::new(out, "C10", 12);
+    // the last eighth of the stream: huge outlines, drawn from a second generator state (the first 7/8 are the old sequence)
+    let mut r2 = Rng::new(seed ^ 0xC10_B16);
+    let nold = n - n / 8;
     while sink.len() < n {
-        let big = r.chance(0.2);
-        let Some((vs, note)) = c10_family(&mut r, if big { 60 } else { 16 }) else { continue };
+        let huge = sink.len() >= nold;
+        let fam = if huge { let sc = (10.0f64).powf(r2.range(1.3, 3.0)); c10_family(&mut r2, 12, sc) }
+                  else { let big = r.chance(0.2); c10_family(&mut r, if big { 60 } else { 16 }, 1.0) };
+        let Some((vs, note)) = fam else { continue };
         let outs: Vec<(String, String)> = vs.iter().map(variant_out).collect();
         sink.push(
             format!("[{}]", outs.iter().map(|o| o.0.clone()).collect::<Vec<_>>().join("; ")),
@@ -353,6 +362,18 @@ fn c05_queries(r: &mut Rng, fr: &Frame, poly: &[P2], extra: &[Vec<P2>], nuniform
         let s = r.range(0.05, 0.95);
         qs.push(Query { p: fr.at(m0.0 + s * (v.0 - m0.0), m0.1 + s * (v.1 - m0.1)), lab: "aim-vertex" });
     }
+    // near misses of a vertex: the cast ray passes a vertex at 3e-9 .. 1.3e-8 of its distance from the ray's source, on either side
+    // (outside the 1e-9 class of the recorded vertex-grazing finding; seeded change C05-m4 widens the vertex rules to sqrt(eps)).
+    // Drawn from a derived generator state: the queries above and below are unchanged
+    { let mut r2 = Rng(r.0 ^ 0x5EED_C054);
+      for _ in 0..(2 + n / 4) {
+        let v = poly[2 + r2.below((n - 2) as u64) as usize];
+        let s = r2.range(0.05, 0.95);
+        let (wx, wy) = (v.0 - m0.0, v.1 - m0.1);
+        let f = (10.0f64).powf(r2.range(-8.5, -7.9)) * if r2.chance(0.5) { 1.0 } else { -1.0 };
+        let (tx, ty) = (v.0 - f * wy, v.1 + f * wx);
+        qs.push(Query { p: fr.at(m0.0 + s * (tx - m0.0), m0.1 + s * (ty - m0.1)), lab: "near-vertex-ray" });
+      } }
     // along the first edge (the ray runs along it) on both prolongations
     { let (a, bb) = (poly[0], poly[1]); let t = r.range(0.05, 1.0);
       qs.push(Query { p: fr.at(bb.0 + t * (bb.0 - a.0), bb.1 + t * (bb.1 - a.1)), lab: "along-first" });
